@@ -340,7 +340,13 @@ func c09Exec(raw json.RawMessage, res *RunResult) {
 					res.Violate("restore-mismatch:internal-error-on-original-only", "statement %d fails with a VM internal error on the VM that never crashed (its precompiled body is malformed) but works on the VM restored from JSON after statement %d (body recompiled from text)\n  stmt=%q\n  uncrashed: %s\n  restored:  %s\n  script=%q", i+1, from, sc.Stmts[i], ref[i].Short(), o.Short(), sc.Stmts)
 					break
 				}
-				res.Violate("restore-mismatch:"+f, "after a crash following statement %d and a restore from JSON, statement %d differs in %s from the run that never crashed\n  stmt=%q\n  uncrashed: %s\n  restored:  %s\n  script=%q", from, i+1, f, sc.Stmts[i], ref[i].Short(), o.Short(), sc.Stmts)
+				kind := "restore-mismatch:"
+				if strings.Contains(strings.Join(sc.Stmts, ""), "#EnableDice") {
+					// parse-time flags set by a macro are not part of a function's or computed value's stored
+					// text: its own signature (an open finding)
+					kind = "restore-mismatch-with-macro-in-script:"
+				}
+				res.Violate(kind+f, "after a crash following statement %d and a restore from JSON, statement %d differs in %s from the run that never crashed\n  stmt=%q\n  uncrashed: %s\n  restored:  %s\n  script=%q", from, i+1, f, sc.Stmts[i], ref[i].Short(), o.Short(), sc.Stmts)
 				break
 			}
 		}
